@@ -37,6 +37,31 @@ def info_matrix(elem):
 EMPTY = (None, None, "cell", None, None)
 
 
+def span_errors(info):
+    """Merged regions against covered cells: every cell of a span rectangle other than its origin is a
+    covered cell, every covered cell lies in exactly one rectangle.  Positions outside the rows are skipped."""
+    owner = {}
+    errs = []
+    for yy, row in enumerate(info):
+        for xx, c in enumerate(row):
+            if c[2] == "cell" and (c[3] or c[4]):
+                cs, rs = int(c[3] or 1), int(c[4] or 1)
+                for j in range(yy, yy + rs):
+                    for i in range(xx, xx + cs):
+                        if (i, j) == (xx, yy):
+                            continue
+                        if (i, j) in owner:
+                            errs.append(("overlap", (i, j)))
+                        owner[(i, j)] = (xx, yy)
+                        if j < len(info) and i < len(info[j]) and info[j][i][2] != "covered":
+                            errs.append(("not-covered", (i, j)))
+    for yy, row in enumerate(info):
+        for xx, c in enumerate(row):
+            if c[2] == "covered" and (xx, yy) not in owner:
+                errs.append(("orphan-covered", (xx, yy)))
+    return errs
+
+
 def values_of(info):
     return [[c[0] for c in row] for row in info]
 
@@ -157,9 +182,24 @@ class TransformMachine:
             if alphabet == "full" or a in seen[:2]:
                 ops.append(("set_span", a, True))
             ops.append(("del_span", a))
-            if a[2] - a[0] == a[3] - a[1] and a != (0, 0, 0, 0):
+            if a[2] - a[0] == a[3] - a[1] and a != (0, 0, 0, 0) and not self._cuts_a_span(elem, a):
                 ops.append(("transpose_area", a))
         return ops
+
+    @staticmethod
+    def _cuts_a_span(elem, a):
+        """Transposing an area that contains only a part of a merged region has no defined result
+        (the origin or some covered cells stay outside): outside the domain."""
+        info = info_matrix(elem)
+        x, y, z, t = a
+        for yy, row in enumerate(info):
+            for xx, c in enumerate(row):
+                if c[2] == "cell" and (c[3] or c[4]):
+                    cs, rs = int(c[3] or 1), int(c[4] or 1)
+                    inside = [x <= i <= z and y <= j <= t for j in range(yy, yy + rs) for i in range(xx, xx + cs)]
+                    if any(inside) and not all(inside):
+                        return True
+        return False
 
     # ------------------------------------------------------------ step
     def step(self, st, op):
@@ -262,7 +302,9 @@ class TransformMachine:
 
         if name == "transpose":
             exp = trim(transpose_model(pv))
-            if trim(qv) != exp:
+            if not span_errors(pre["info"]) and span_errors(info_matrix(elem)):
+                fail("transpose-spans", "merged regions transposed with their covered cells", span_errors(info_matrix(elem))[:4], "transposed-spans-inconsistent")
+            elif trim(qv) != exp:
                 fail("transpose", exp, trim(qv), "not-the-transposed-matrix")
             else:
                 try:
@@ -275,6 +317,8 @@ class TransformMachine:
         elif name == "transpose_area":
             x, y, z, tt = op[1]
             bad = None
+            if not span_errors(pre["info"]) and span_errors(info_matrix(elem)):
+                fail("transpose-spans", "merged regions of the area transposed with their covered cells", span_errors(info_matrix(elem))[:4], "transposed-spans-inconsistent")
             for yy in range(max(len(pv), len(qv))):
                 for xx in range(max(pre["W"], max((len(r) for r in qv), default=0))):
                     inside = x <= xx <= z and y <= yy <= tt
